@@ -739,6 +739,13 @@ func (env *Env) callExpr(n *ast.CallExpr) SV {
 	case "written":
 		v := arg(0)
 		return svInt(ghost(env.st, "written:"+x.vc.canon(v.V[1].T)))
+	case "locked":
+		// locked(x, "mu"): the mutex field mu of *x is held at this point (ghost lock set)
+		v := arg(0)
+		name, _ := strconv.Unquote(n.Args[1].(*ast.BasicLit).Value)
+		off, _ := x.fieldAt(v.Ty, name)
+		key := lockKey(x.vc, Val{v.V[0], ic(add(v.V[1].T, itoa(int64(off))))})
+		return svBool(eq(ghost(env.st, key), "1"))
 	case "bitof":
 		return svInt(sx("bitat", env.int(n.Args[0]), env.int(n.Args[1])))
 	case "reqdata":
